@@ -32,15 +32,15 @@ func init() {
 			Runs: []Run{
 				{S: withAnnotate(unionScenario(unionOpts{name: "union-halt", extreme: true}), annotateHalt), Opt: map[Tier]Options{
 					Quick:    {Depth: 3, Budget: 150 * time.Second, ReplayEvery: 16},
-					Thorough: {Depth: 5, Budget: 25 * time.Minute, ReplayEvery: 32, MaxStates: 400000},
+					Thorough: {Depth: 5, Budget: 10 * time.Minute, ReplayEvery: 32, MaxStates: 400000},
 				}},
 				{S: withAnnotate(unionScenario(unionOpts{name: "union-halt-gov-order", extreme: true, govOrder: true}), annotateHalt), Opt: map[Tier]Options{
 					Quick:    {Depth: 3, Budget: 100 * time.Second, ReplayEvery: 16},
-					Thorough: {Depth: 5, Budget: 20 * time.Minute, ReplayEvery: 32, MaxStates: 400000},
+					Thorough: {Depth: 5, Budget: 8 * time.Minute, ReplayEvery: 32, MaxStates: 400000},
 				}},
 				{S: withAnnotate(unionScenario(unionOpts{name: "union-atomic", multi: true}), annotateHalt), Opt: map[Tier]Options{
 					Quick:    {Depth: 3, Budget: 100 * time.Second, ReplayEvery: 16},
-					Thorough: {Depth: 5, Budget: 20 * time.Minute, ReplayEvery: 32, MaxStates: 500000},
+					Thorough: {Depth: 5, Budget: 8 * time.Minute, ReplayEvery: 32, MaxStates: 500000},
 				}},
 			},
 			// no panic escapes BeginBlock/EndBlock/Commit; a failed transaction leaves the module stores as they were
